@@ -146,6 +146,7 @@ def reference(model, X, y, Xs, fam, noise_test):
                 Stest = Stest + model.likelihood.second_noise.reshape(*model.likelihood.second_noise.shape[:-1], 1, 1) * torch.eye(m, dtype=F64)
     yflat = y.reshape(*y.shape[: y.dim() - (2 if mt else 1)], -1)
     mean, cov = dense.conditional(Kxx + Strain, Kxs.mT, Kss, mx, ms, yflat)
+    reference.prior = (ms, Kss)   # the prior at the test inputs (for the prior_mode comparison)
     return mean, cov, Stest
 
 
@@ -217,6 +218,34 @@ def run_cell(cell, seed):
         if not ok:
             fails.append({"sub": "likelihood-noise", "symptom": f"likelihood changed the mean: err={msg}", "detail": "", "features": f2})
         sigs.add("ok")
+    # prior_mode: the model returns its own prior at the test inputs, whatever it has been conditioned on (before and after a prediction)
+    pm, pK = reference.prior
+    for when in ("fresh", "after-predict"):
+        f2 = dict(feats, settings="prior_mode", nsw=1)
+        try:
+            vec = cell.get("form") == "vec"
+            model = build(cell, seed, X.squeeze(-1) if vec else X, y, noise, mb)
+            xs = Xs.squeeze(-1) if vec else Xs
+            with torch.no_grad():
+                if when == "after-predict":
+                    model(xs)
+                with S.prior_mode(True):
+                    out = model(xs)
+                mean = out.mean.reshape(*out.mean.shape[: out.mean.dim() - (2 if mt else 1)], -1)
+                cov = out.covariance_matrix
+            ops += 1
+            states.append(util.digest([cell, "prior_mode", when]))
+            # the prior at non-batched test inputs need not carry the batch shape of the training data: compare after broadcasting
+            shp = torch.broadcast_shapes(mean.shape, pm.shape)
+            ok, msg = util.close(mean.expand(shp), pm.expand(shp), 1e-9, 1e-9)
+            if not ok:
+                fails.append({"sub": "prior-mode", "symptom": f"mean under prior_mode ({when}) != prior mean: err={msg}", "detail": "", "features": f2})
+            shp = torch.broadcast_shapes(cov.shape, pK.shape)
+            ok, msg = util.close(cov.expand(shp), pK.expand(shp), 1e-9, 1e-9)
+            if not ok:
+                fails.append({"sub": "prior-mode", "symptom": f"covariance under prior_mode ({when}) != prior covariance: err={msg}", "detail": "", "features": f2})
+        except Exception as e:
+            fails.append({"sub": "prior-mode", "symptom": util.exc_str(e), "detail": "", "features": f2})
     # one representative failure per (sub, settings-size) to keep reports readable
     seen, kept = set(), []
     for f in fails:
